@@ -180,6 +180,8 @@ def match_known(known, pid, v):
             continue
         if k.get("subcheck") is not None and k.get("subcheck") != v["sub"]:
             continue
+        if k.get("subcheck_regex") is not None and not re.search(k["subcheck_regex"], v["sub"]):
+            continue
         m = k.get("match", {})
         if "key" in m and m["key"] != v["key"]:
             continue
